@@ -102,6 +102,9 @@ func (f *IPv4Filter) Remove(cidr *net.IPNet) error {
 }
 
 func (f *IPv4Filter) Contains(ip net.IP) bool {
+	if ip4 := ip.To4(); ip4 != nil {
+		ip = ip4 // accept the 16-byte form of an IPv4 address
+	}
 	if f.matchAll.Load() {
 		return true
 	} else if len(ip) != net.IPv4len {
